@@ -65,11 +65,11 @@ void sym_inputs(void)
 #include "replay_inputs.inc"
 #else
   SYM_ARR(rcp); SYM(nloc); SYM(nvd); SYM(nph);
-  { unsigned a, b;
-    for (a = 0; a < NLOC; ++a) { SYM(loc_len[a]); for (b = 0; b < LOCMAX; ++b) SYM(loc_key[a][b]); }
-    for (a = 0; a < NVD; ++a) { SYM(vd_len[a]); for (b = 0; b < VKMAX; ++b) SYM(vd_key[a][b]);
-                                for (b = 0; b < VTMAX + 1; ++b) SYM(vd_tag[a][b]); }
-    for (a = 0; a < NPH; ++a) { SYM(ph_len[a]); for (b = 0; b < PHMAX; ++b) SYM(ph_key[a][b]); } }
+  { unsigned _ia, _ib;     /* names starting with _i: not recorded as inputs by the driver */
+    for (_ia = 0; _ia < NLOC; ++_ia) { SYM(loc_len[_ia]); for (_ib = 0; _ib < LOCMAX; ++_ib) SYM(loc_key[_ia][_ib]); }
+    for (_ia = 0; _ia < NVD; ++_ia) { SYM(vd_len[_ia]); for (_ib = 0; _ib < VKMAX; ++_ib) SYM(vd_key[_ia][_ib]);
+                                      for (_ib = 0; _ib < VTMAX + 1; ++_ib) SYM(vd_tag[_ia][_ib]); }
+    for (_ia = 0; _ia < NPH; ++_ia) { SYM(ph_len[_ia]); for (_ib = 0; _ib < PHMAX; ++_ib) SYM(ph_key[_ia][_ib]); } }
   SYM_ARR(en); SYM(en_len);
 #endif
 }
